@@ -68,7 +68,8 @@ def Store.read (kind : Kind) (cfg : Cfg) (s : Store) (k : Key) (skip : Bool) (no
   if skip then (s, .miss, [])
   else
     let slot := s.slot hash k
-    if kind.keyMismatchRead slot.isSome (slotKeyEq slot k) then (s, .miss, [.miss])
+    -- Go's `!found || ...` short-circuits: for an empty slot the comparison is not evaluated, whatever its spelling
+    if !slot.isSome || kind.keyMismatchRead true (slotKeyEq slot k) then (s, .miss, [.miss])
     else match slot with
       | none => (s, .miss, [.miss])      -- not reachable with the verified kernel (Go would dereference nil)
       | some e =>
@@ -109,7 +110,7 @@ def Store.write (cfg : Cfg) (s : Store) (k : Key) (v : Option Val) (ctxTTL : Int
 /-- `Delete`: `true` = deleted, `false` = ErrNotFound. -/
 def Store.delete (kind : Kind) (s : Store) (k : Key) : Store × Bool × List Metric :=
   let slot := s.slot hash k
-  if kind.keyMismatchDelete slot.isSome (slotKeyEq slot k) then (s, false, [])
+  if !slot.isSome || kind.keyMismatchDelete true (slotKeyEq slot k) then (s, false, [])
   else ({ s with slots := s.slots.erase (hash k) }, true, [.delete 1])
 
 end ops
